@@ -9,7 +9,7 @@ BASELINE_OFF = ("export GOFLAGS=-mod=mod GOPROXY=off GOSUMDB=off GOTOOLCHAIN=loc
                 "for m in $(cat /w/out/gomods.txt); do (cd /repo/$m && go test -mod=mod -json -vet=off -count=1 -timeout 25m ./...); done")
 
 P = {
- "C01": dict(level="exploration", tech="runtime monitor: recording exporter + ticket-clock history oracle (exactly-once, batch bound, exclusivity, quiet-after-shutdown, flush visibility, conservation vs SDK drop counter) over seeded concurrent histories under go -race",
+ "C01": dict(level="exploration", tech="runtime monitor: recording exporter + ticket-clock history oracle (exactly-once, batch bound, exclusivity, quiet-after-shutdown, flush visibility, conservation vs SDK drop counter) over seeded concurrent histories under go -race; queue-capacity family with a gate-parked worker",
              text="Held on every generated concurrent history of End/ForceFlush/Shutdown against the real BatchSpanProcessor with slow/failing/blocking exporters; evidence reports overlaps actually observed. Exploration is the right level: the property quantifies over schedules, which only executions can sample.",
              note="Trusts the Go race detector, the harness' recording exporter and ticket clock; interleavings not produced are not covered."),
  "C02": dict(level="exploration", tech="runtime monitor: interval (linearizability) oracle + conservation ledger over concurrent Add/Collect histories under go -race; porcupine linearizability check of short histories in the thorough tier",
@@ -30,13 +30,13 @@ P = {
  "C07": dict(level="exploration", tech="runtime monitor: exact (big-float / exponent arithmetic) bucket-index oracle applied incrementally to every intermediate collection of generated measurement sequences",
              text="Held on every generated measurement sequence, boundary list and (MaxSize, MaxScale) pair, collecting after every few records so every rescale is observed.",
              note="Trusts math/big and the harness' incremental rescale model."),
- "C08": dict(level="exploration", tech="runtime monitor: running delta ledger vs cumulative reader, interval adjacency on reported timestamps, async observation script model, over generated multi-cycle histories",
+ "C08": dict(level="exploration", tech="runtime monitor: running delta ledger vs cumulative reader, interval adjacency on reported timestamps, async observation script model, over generated multi-cycle histories; wide (thousands of sets), concurrent (record while collecting, overlapping collections of one reader) and interrupted (collection attempts on done contexts) families",
              text="Held on every generated history of measurements, callback scripts, (un)registrations and collections for all instrument kinds and aggregations.",
-             note="Single-threaded histories (schedules are C02); trusts the harness ledger."),
- "C09": dict(level="exploration", tech="runtime monitor: sampler wrapped by a recording sampler, span trees checked against the recorded decisions; ratio sampler determinism/monotonicity/extremes on generated trace ids; binomial band for the share",
+             note="Mostly single-threaded histories plus a concurrent and an interrupted-collection family; trusts the harness ledger."),
+ "C09": dict(level="exploration", tech="runtime monitor: sampler wrapped by a recording sampler, span trees checked against the recorded decisions; ratio sampler determinism/monotonicity/extremes on generated trace ids; binomial band for the share; trees repeated under runtime/trace; late children of ended parents; concurrent ends through a simple span processor",
              text="Held on every generated span tree, sampler composition, parent class and (trace id, ratio) pair.",
              note="'tracks r' is a 6-sigma statistical band; trusts the wrapper's log."),
- "C10": dict(level="exploration", tech="runtime monitor: per-span OnEnd counters, tagged mutation groups (torn-write detection), snapshot re-comparison, ticket-clock child count bounds, with and without runtime/trace, under go -race",
+ "C10": dict(level="exploration", tech="runtime monitor: per-span OnEnd counters, tagged mutation groups (torn-write detection), snapshot re-comparison, ticket-clock child count bounds, with and without runtime/trace, under go -race; processors that read the live span, churned processors probed inside/after their registration window, tiny event/link queues, caller-owned attribute buffers",
              text="Held on every generated concurrent program on shared spans in traced and untraced mode; evidence reports truly overlapping End calls.",
              note="Trusts race detector; interleavings not produced are not covered."),
  "C11": dict(level="exploration", tech="runtime monitor: member/property map model + independent percent codec and limit arithmetic over generated baggage, mutated/raw header bytes and edit programs",
@@ -57,7 +57,7 @@ P = {
  "C16": dict(level="exploration", tech="runtime monitor: one process per trial; ledger of post-install telemetry vs ManualReader/recording processor, callback counters, watchdog with two-sample deadlock confirmation, go -race",
              text="Held on every generated trial racing creation, recording, (un)registration and installation.",
              note="Deadlock = two identical stack samples of goroutines parked in otel frames; schedules not produced are not covered."),
- "C17": dict(level="exploration", tech="runtime monitor: ordered-map model with recursive truncation predicate compared against Record contents after generated SetAttributes/AddAttributes programs; clone divergence",
+ "C17": dict(level="exploration", tech="runtime monitor: ordered-map model with recursive truncation predicate compared against Record contents after generated SetAttributes/AddAttributes programs; clone divergence; concurrent Emit through one shared Logger",
              text="Held on every generated program under every drawn (count, length) limit pair, on emitted records and clones.",
              note="Trusts the harness model."),
  "C18": dict(level="exploration", tech="runtime monitor: independent name/suffix/label recogniser + twin cumulative ManualReader value comparison on gathered families; child per batch (process death observed); concurrent scrapes under go -race",
